@@ -107,6 +107,10 @@ impl BDDSet {
 
     pub fn contains<T: BDDCategorizable>(&self, e: T) -> bool {
         let singleton = Self::from_element(e, self.bits, &self.env);
-        self.intersect(&singleton) == &singleton
+        // a query must not modify the receiver: intersect a copy of the diagram
+        let _self = self.bdd.borrow().clone();
+        let _single = singleton.bdd.borrow().clone();
+
+        self.env.and(_self, Rc::clone(&_single)) == _single
     }
 }
